@@ -254,7 +254,7 @@ Section H.
     - intros N. destruct IH as (l & E & S); [lia|]. rewrite E. exists (mf :: l). split; [reflexivity | constructor; exact S].
   Qed.
 
-  Lemma enc_loop_sub pol encfail mfs : sub (fst (fst (enc_loop pol encfail mfs))) mfs.
+  Lemma enc_loop_sub pol (encfail : fam -> bool) (mfs : list fam) : sub (fst (fst (enc_loop pol encfail mfs))) mfs.
   Proof.
     induction mfs as [|mf r IH]; [constructor|]. simpl.
     destruct (enc_loop pol encfail r) as [[l e] x]. simpl in IH.
@@ -304,16 +304,22 @@ Section H2.
   Proof. intros A. rewrite handle_eq, A. reflexivity. Qed.
 
   (* ---- done() and Gather() exactly once on every path that passed the semaphore ---- *)
+  Lemma served_out_fields i :
+    o_done (served_out i) = 1 /\ o_gathers (served_out i) = 1 /\ o_gathering (served_out i) = (if h_gerr i then 1 else 0) /\
+    o_status (served_out i) = 200 /\ o_cenc (served_out i) = cenc_of fam i /\ o_plain (served_out i) = false /\
+    o_ctype (served_out i) = Some (h_ct i).
+  Proof.
+    unfold served_out. destruct (enc_loop (h_policy i) (h_encfail i) (h_mfs i)) as [[encd ecnt] xx].
+    destruct xx; [destruct (h_closefail i); [destruct (h_policy i)|]| |]; repeat split; reflexivity.
+  Qed.
+
   Lemma done_once_lemma i : sem_admits (h_limit i) (h_inflight i) = true ->
     o_done (handle i) = 1 /\ o_gathers (handle i) = 1 /\ o_gathering (handle i) = (if h_gerr i then 1 else 0).
   Proof.
-    intros A. rewrite handle_eq, A. cbv [negb]. unfold stops, served_out.
-    destruct (h_gerr i) eqn:G; simpl.
-    - destruct (h_policy i); try (repeat split; reflexivity);
-        try (destruct (h_mfs i); [repeat split; reflexivity|]);
-        destruct (enc_loop _ (h_encfail i) _) as [[l e] x]; destruct x; try destruct (h_closefail i); repeat split; reflexivity.
-    - destruct (enc_loop (h_policy i) (h_encfail i) (h_mfs i)) as [[l e] x]; destruct x; try destruct (h_closefail i);
-        try destruct (h_policy i); repeat split; reflexivity.
+    intros A. rewrite handle_eq, A. cbv [negb]. destruct (stops i) eqn:S.
+    - unfold stops in S. apply andb_true_iff in S. destruct S as [G _]. rewrite G.
+      destruct (h_policy i); repeat split; reflexivity.
+    - destruct (served_out_fields i) as (D & Gs & Gc & _). repeat split; assumption.
   Qed.
 
   Definition is_err500 (o : hout fam) : Prop :=
@@ -347,16 +353,17 @@ Section H2.
   Proof.
     intros A G. rewrite handle_eq, A. cbv [negb]. unfold stops. rewrite G. simpl.
     destruct (h_policy i) eqn:P; try (repeat split; reflexivity).
-    destruct (h_mfs i) as [|m r] eqn:M; [repeat split; reflexivity|].
-    unfold served_out, spec_encoding_count. rewrite P, G, M.
-    rewrite (enc_loop_continue fam PContinue (h_encfail i) (m :: r)) by (left; reflexivity).
-    pose proof (count_true_nonneg (h_encfail i) (m :: r)) as NN. fold (nfails fam (h_encfail i) (m :: r)) in NN.
-    destruct (h_closefail i); simpl.
-    - repeat split; try reflexivity. intros Z0. lia.
-    - repeat split; try reflexivity; try lia.
-      + intros Z0. rewrite Z.add_0_r in Z0. rewrite (enc_loop_clean fam PContinue) in * by exact Z0.
-        pose proof (enc_loop_continue fam PContinue (h_encfail i) (m :: r) (or_introl eq_refl)) as E.
-        rewrite (enc_loop_clean fam PContinue _ _ Z0) in E. inversion E. congruence.
+    destruct (h_mfs i) as [|m r] eqn:M; [repeat split; reflexivity|]. rewrite <- M.
+    unfold served_out, spec_encoding_count. rewrite P, G.
+    rewrite (enc_loop_continue fam PContinue (h_encfail i) (h_mfs i)) by (left; reflexivity).
+    pose proof (count_true_nonneg (h_encfail i) (h_mfs i)) as NN. fold (nfails fam (h_encfail i) (h_mfs i)) in NN.
+    assert (K : nfails fam (h_encfail i) (h_mfs i) = 0 -> filter (fun f => negb (h_encfail i f)) (h_mfs i) = h_mfs i).
+    { intros Z1. pose proof (enc_loop_continue fam PContinue (h_encfail i) (h_mfs i) (or_introl eq_refl)) as E.
+      rewrite (enc_loop_clean fam PContinue _ _ Z1) in E. inversion E. congruence. }
+    destruct (h_closefail i); cbn; repeat match goal with |- _ /\ _ => split end; try reflexivity.
+    - intros Z0. exfalso. lia.
+    - lia.
+    - intros Z0. split; [apply K; lia | reflexivity].
   Qed.
 
   (* a successful gather, or a tolerated partial one: what is served *)
@@ -382,9 +389,8 @@ Section H2.
   (* ---- Content-Encoding clauses ---- *)
   Lemma handle_cenc i : o_cenc (handle i) = None \/ o_cenc (handle i) = cenc_of fam i.
   Proof.
-    rewrite handle_eq. destruct (negb _); [left; reflexivity|].
-    destruct (stops i); [left; destruct (h_policy i); reflexivity|]. right.
-    unfold served_out. destruct (enc_loop _ _ _) as [[l e] x]. destruct x; try destruct (h_closefail i); try destruct (h_policy i); reflexivity.
+    rewrite handle_eq. destruct (negb (sem_admits (h_limit i) (h_inflight i))); [left; reflexivity|].
+    destruct (stops i); [left; destruct (h_policy i); reflexivity|]. right. apply (served_out_fields i).
   Qed.
 
   Lemma chosen_encoding_lemma i :
@@ -408,9 +414,10 @@ Section H2.
     - rewrite H in A1. discriminate.
     - apply str_in_In in A2. apply orb_true_iff in A3.
       rewrite (H c A2) in A4; [discriminate|]. destruct A3 as [A3|A3]; apply str_eqb_eq in A3; [left|right]; exact A3.
-    - apply H. revert E. rewrite handle_eq. destruct (negb _); [discriminate|].
-      destruct (stops i); [destruct (h_policy i); discriminate|]. intros _.
-      unfold served_out. destruct (enc_loop _ _ _) as [[l e] x]. destruct x; try destruct (h_closefail i); try destruct (h_policy i); reflexivity.
+    - apply H. revert E. rewrite handle_eq.
+      destruct (negb (sem_admits (h_limit i) (h_inflight i))); [intros E; change (@None str = Some c) in E; discriminate E|].
+      destruct (stops i); [destruct (h_policy i); intros E; change (@None str = Some c) in E; discriminate E|]. intros _.
+      apply (served_out_fields i).
   Qed.
 
   (* ---- the body ---- *)
@@ -441,7 +448,8 @@ Section H2.
       { unfold stops. destruct S as [S | [S1 S2]]; [rewrite S; reflexivity|]. rewrite S1. destruct (h_mfs i); [contradiction S2; reflexivity|].
         apply andb_false_r. }
       assert (N : nfails fam (h_encfail i) (h_mfs i) = 0).
-      { unfold nfails, count_true. induction (h_mfs i) as [|m r IH]; [reflexivity|]. simpl. rewrite (F m (or_introl eq_refl)). apply IH.
+      { clear - F. revert F. generalize (h_mfs i) as l. unfold nfails, count_true.
+        induction l as [|m r IH]; intros F; [reflexivity|]. simpl. rewrite (F m (or_introl eq_refl)). apply IH.
         intros f Hf. apply F. right. exact Hf. }
       simpl. rewrite served_lemma by assumption. unfold served_out. rewrite (enc_loop_clean fam _ _ _ N), C. simpl.
       repeat split; try reflexivity. unfold body. simpl. rewrite unwrap_wrap. simpl. rewrite codec_inv. reflexivity.
@@ -472,7 +480,7 @@ Qed.
 Lemma sub_map {A B} (f : A -> B) a b : sub a b -> sub (map f a) (map f b).
 Proof. induction 1; simpl; constructor; assumption. Qed.
 
-Definition F := (Z * bool)%type.
+Local Notation F := (Z * bool)%type.
 
 Lemma counters_obs (i : hin F) tr rg (o : hout F) g e :
   o_gathering o = g -> o_encoding o = e -> counters_are (obs_of i tr rg o) g e = true.
@@ -482,43 +490,42 @@ Qed.
 
 Lemma served_ok (i : hin F) tr rg : spec_served i (obs_of i tr rg (served_out F i)) = true.
 Proof.
-  unfold spec_served, spec_nfail.
+  unfold spec_served, spec_nfail, served_out.
   pose proof (count_true_nonneg (h_encfail i) (h_mfs i)) as NN.
   pose proof (cenc_of_allowed F i) as CA. unfold comps_of in CA.
+  pose proof (enc_loop_sub F (h_policy i) (h_encfail i) (h_mfs i)) as SUB.
+  pose proof (enc_loop_clean F (h_policy i) (h_encfail i) (h_mfs i)) as CLEAN.
+  pose proof (enc_loop_stop F (h_policy i) (h_encfail i) (h_mfs i)) as STOP.
+  pose proof (enc_loop_continue F (h_policy i) (h_encfail i) (h_mfs i)) as CONT.
+  assert (FLT : count_true (h_encfail i) (h_mfs i) = 0 -> filter (fun f : F => negb (h_encfail i f)) (h_mfs i) = h_mfs i).
+  { intros Z0. pose proof (enc_loop_continue F PContinue (h_encfail i) (h_mfs i) (or_introl eq_refl)) as E1.
+    rewrite (enc_loop_clean F PContinue _ _ Z0) in E1. inversion E1. congruence. }
+  unfold nfails in CLEAN, STOP, CONT.
   set (n := count_true (h_encfail i) (h_mfs i)) in *.
-  assert (Hn : nfails F (h_encfail i) (h_mfs i) = n) by reflexivity.
+  set (flt' := filter (fun f : F => negb (h_encfail i f)) (h_mfs i)) in *.
+  destruct (enc_loop (h_policy i) (h_encfail i) (h_mfs i)) as [[l e] x]. simpl in SUB.
+  apply (sub_map fst) in SUB. apply subseq_b_of_sub in SUB.
   destruct (n =? 0) eqn:N0.
   - (* no Encode call fails *)
-    apply Z.eqb_eq in N0. pose proof (enc_loop_clean F (h_policy i) (h_encfail i) (h_mfs i)) as E.
-    rewrite Hn in E. specialize (E N0). rewrite N0.
-    destruct (h_closefail i) eqn:C; simpl.
-    + destruct (h_policy i) eqn:P; simpl; unfold served_out; rewrite E, C, P; simpl;
-        try (rewrite str_eqb_refl, CA, (subseq_b_of_sub _ _ (sub_refl _)); simpl);
-        try (rewrite zs_eqb_refl);
-        repeat (rewrite counters_obs by reflexivity); reflexivity.
-    + unfold served_out; rewrite E, C; simpl.
-      rewrite str_eqb_refl, CA, (subseq_b_of_sub _ _ (sub_refl _)), zs_eqb_refl. simpl.
-      rewrite counters_obs by reflexivity. reflexivity.
-  - apply Z.eqb_neq in N0.
+    apply Z.eqb_eq in N0. specialize (CLEAN N0). inversion CLEAN; subst l e x. rewrite N0. rewrite Z.add_0_l. rewrite (FLT N0). clear STOP CONT CLEAN.
+    destruct (h_closefail i) eqn:C.
+    + destruct (h_policy i) eqn:P; cbn; rewrite ?str_eqb_refl, ?CA, ?SUB, ?zs_eqb_refl; cbn;
+        rewrite counters_obs by reflexivity; reflexivity.
+    + cbn. rewrite str_eqb_refl, CA, SUB, zs_eqb_refl. cbn. rewrite counters_obs by reflexivity. reflexivity.
+  - apply Z.eqb_neq in N0. clear CLEAN.
     assert (NZ : (n + (if h_closefail i then 1 else 0) =? 0) = false) by (apply Z.eqb_neq; destruct (h_closefail i); lia).
-    rewrite NZ. simpl.
-    destruct (h_policy i) eqn:P; simpl.
-    + destruct (enc_loop_stop F PHttpError (h_encfail i) (h_mfs i) (or_introl eq_refl)) as (l & E & S); [rewrite Hn; exact N0|].
-      unfold served_out. rewrite P, E. simpl.
-      rewrite str_eqb_refl, CA, (subseq_b_of_sub _ _ (sub_map fst _ _ S)). simpl.
-      rewrite counters_obs by reflexivity. reflexivity.
-    + pose proof (enc_loop_continue F PContinue (h_encfail i) (h_mfs i) (or_introl eq_refl)) as E. rewrite Hn in E.
-      pose proof (enc_loop_sub F PContinue (h_encfail i) (h_mfs i)) as S. rewrite E in S. simpl in S.
-      unfold served_out. rewrite P, E. destruct (h_closefail i); simpl;
-        rewrite str_eqb_refl, CA, (subseq_b_of_sub _ _ (sub_map fst _ _ S)), zs_eqb_refl; simpl;
-        rewrite counters_obs; try reflexivity; simpl; lia.
-    + destruct (enc_loop_stop F PPanic (h_encfail i) (h_mfs i) (or_intror eq_refl)) as (l & E & S); [rewrite Hn; exact N0|].
-      unfold served_out. rewrite P, E. simpl. rewrite counters_obs by reflexivity. reflexivity.
-    + pose proof (enc_loop_continue F POther (h_encfail i) (h_mfs i) (or_intror eq_refl)) as E. rewrite Hn in E.
-      pose proof (enc_loop_sub F POther (h_encfail i) (h_mfs i)) as S. rewrite E in S. simpl in S.
-      unfold served_out. rewrite P, E. destruct (h_closefail i); simpl;
-        rewrite str_eqb_refl, CA, (subseq_b_of_sub _ _ (sub_map fst _ _ S)), zs_eqb_refl; simpl;
-        rewrite counters_obs; try reflexivity; simpl; lia.
+    rewrite NZ.
+    destruct (h_policy i) eqn:P.
+    + destruct (STOP (or_introl eq_refl) N0) as (l' & E & _). inversion E; subst l' e x. clear STOP CONT.
+      cbn. rewrite str_eqb_refl, CA, SUB. cbn. rewrite counters_obs by reflexivity. reflexivity.
+    + specialize (CONT (or_introl eq_refl)). inversion CONT; subst l e x. clear STOP CONT.
+      destruct (h_closefail i); cbn; rewrite str_eqb_refl, CA, SUB, zs_eqb_refl; cbn;
+        rewrite counters_obs; try reflexivity; cbn; lia.
+    + destruct (STOP (or_intror eq_refl) N0) as (l' & E & _). inversion E; subst l' e x. clear STOP CONT.
+      cbn. rewrite counters_obs by reflexivity. reflexivity.
+    + specialize (CONT (or_intror eq_refl)). inversion CONT; subst l e x. clear STOP CONT.
+      destruct (h_closefail i); cbn; rewrite str_eqb_refl, CA, SUB, zs_eqb_refl; cbn;
+        rewrite counters_obs; try reflexivity; cbn; lia.
 Qed.
 
 Lemma served_out_calls (i : hin F) : o_gathers (served_out F i) = 1 /\ o_done (served_out F i) = 1.
@@ -531,22 +538,180 @@ Proof.
   intros i tr rg. unfold spec_ok. rewrite handle_eq. unfold sem_admits. rewrite negb_involutive.
   destruct ((0 <? h_limit i) && (h_limit i <=? h_inflight i)).
   - unfold counters_are, no_cenc, obs_of. simpl. destruct rg; reflexivity.
-  - unfold stops. destruct (h_gerr i) eqn:G; simpl.
-    + destruct (h_policy i) eqn:P.
-      * unfold spec_err500, counters_are, no_cenc, obs_of. simpl. destruct rg; reflexivity.
-      * destruct (h_mfs i) as [|m r] eqn:M.
-        -- unfold spec_err500, counters_are, no_cenc, obs_of. simpl. destruct rg; reflexivity.
-        -- destruct (served_out_calls i) as [A B]. rewrite <- M.
-           replace (b_gathers (obs_of i tr rg (served_out F i))) with (o_gathers (served_out F i)) by reflexivity.
-           replace (b_done (obs_of i tr rg (served_out F i))) with (o_done (served_out F i)) by reflexivity.
-           rewrite A, B, served_ok. reflexivity.
-      * unfold counters_are, obs_of. simpl. destruct rg; reflexivity.
-      * destruct (served_out_calls i) as [A B].
-        replace (b_gathers (obs_of i tr rg (served_out F i))) with (o_gathers (served_out F i)) by reflexivity.
-        replace (b_done (obs_of i tr rg (served_out F i))) with (o_done (served_out F i)) by reflexivity.
-        rewrite A, B. reflexivity.
+  - destruct (stops F i) eqn:S.
+    + unfold stops in S. destruct (h_gerr i); [|discriminate S].
+      destruct (h_policy i); [| destruct (h_mfs i); [|discriminate S] | | discriminate S];
+        unfold spec_err500, counters_are, no_cenc, obs_of; simpl; destruct rg; reflexivity.
     + destruct (served_out_calls i) as [A B].
       replace (b_gathers (obs_of i tr rg (served_out F i))) with (o_gathers (served_out F i)) by reflexivity.
       replace (b_done (obs_of i tr rg (served_out F i))) with (o_done (served_out F i)) by reflexivity.
-      rewrite A, B, served_ok. reflexivity.
+      rewrite A, B. change ((1 =? 1) && (1 =? 1)) with true. cbv [andb].
+      unfold stops in S. destruct (h_gerr i); [|apply served_ok].
+      destruct (h_policy i); [discriminate S | | discriminate S | reflexivity].
+      destruct (h_mfs i) eqn:M; [discriminate S|]. apply served_ok.
 Qed.
+
+(* ------------------------------------------------------------------ the in-flight semaphore *)
+Lemma runl_cons p l : runl (p :: l) = (if isrun p then 1 else 0) + runl l.
+Proof. unfold runl. simpl. destruct (isrun p); simpl length; lia. Qed.
+
+Lemma runl_nonneg l : 0 <= runl l.
+Proof. unfold runl. lia. Qed.
+
+Lemma runl_finish t l : tlookup t l = Some TRunning -> runl (tset t TFinished l) = runl l - 1.
+Proof.
+  induction l as [|[u s] l IH]; simpl; [discriminate|].
+  destruct (u =? t) eqn:E.
+  - intros H. inversion H; subst s. rewrite !runl_cons. unfold isrun. simpl. lia.
+  - intros H. rewrite !runl_cons. rewrite IH by exact H. lia.
+Qed.
+
+Lemma tlookup_tset t s l : tlookup t l <> None -> tlookup t (tset t s l) = Some s.
+Proof.
+  induction l as [|[u s'] l IH]; simpl; [congruence|].
+  destruct (u =? t) eqn:E; simpl; rewrite E; [reflexivity | exact IH].
+Qed.
+
+Record sem_inv (limit : Z) (m : sem) : Prop := mkInv {
+  inv_count : m_count m = if 0 <? limit then running m else 0;
+  inv_bound : 0 < limit -> running m <= limit;
+  inv_calls : m_gathers m = m_dones m + running m;
+  inv_peak : 0 < limit -> m_peak m <= limit;
+  inv_peak0 : 0 <= m_peak m;
+  inv_nolimit : limit <= 0 -> m_503 m = 0
+}.
+
+Lemma sem_admits_true limit c : sem_admits limit c = true -> 0 < limit -> c < limit.
+Proof.
+  unfold sem_admits. intros H L. destruct (0 <? limit) eqn:A; [|apply Z.ltb_ge in A; lia].
+  destruct (limit <=? c) eqn:B; [discriminate H | apply Z.leb_gt in B; exact B].
+Qed.
+
+Lemma sem_admits_false limit c : sem_admits limit c = false -> 0 < limit /\ limit <= c.
+Proof.
+  unfold sem_admits. destruct (0 <? limit) eqn:A; destruct (limit <=? c) eqn:B; try discriminate.
+  intros _. split; [apply Z.ltb_lt; exact A | apply Z.leb_le; exact B].
+Qed.
+
+Lemma sem_step_inv limit m e : sem_inv limit m -> sem_inv limit (sem_step limit m e).
+Proof.
+  intros [Ic Ib Ig Ip Ip0 In]. unfold running in *. destruct e as [t | t p]; simpl.
+  - destruct (tlookup t (m_threads m)); [constructor; assumption|].
+    destruct (sem_admits limit (m_count m)) eqn:A.
+    + assert (R : runl ((t, TRunning) :: m_threads m) = runl (m_threads m) + 1) by (rewrite runl_cons; unfold isrun; simpl; lia).
+      destruct (0 <? limit) eqn:Q.
+      * pose proof Q as Q'. apply Z.ltb_lt in Q. pose proof (sem_admits_true _ _ A Q) as K. specialize (Ib Q). specialize (Ip Q).
+        constructor; unfold running; simpl; rewrite ?Q', ?R; intros; lia.
+      * pose proof Q as Q'. apply Z.ltb_ge in Q. constructor; unfold running; simpl; rewrite ?Q', ?R; intros; try lia; try (apply In; assumption).
+    + destruct (sem_admits_false _ _ A) as [L _].
+      assert (R : runl ((t, TRejected) :: m_threads m) = runl (m_threads m)) by (rewrite runl_cons; reflexivity).
+      constructor; unfold running; simpl; rewrite ?R; try assumption. intros; lia.
+  - destruct (tlookup t (m_threads m)) as [[| |]|] eqn:T; try (constructor; assumption).
+    pose proof (runl_finish t _ T) as R.
+    assert (P : 1 <= runl (m_threads m)).
+    { clear - T. induction (m_threads m) as [|[u s] l IH]; simpl in T; [discriminate|]. rewrite runl_cons.
+      pose proof (runl_nonneg l). destruct (u =? t); [inversion T; subst; unfold isrun; simpl; lia | specialize (IH T); destruct (isrun (u, s)); lia]. }
+    destruct (0 <? limit) eqn:Q.
+    + pose proof Q as Q'. apply Z.ltb_lt in Q. specialize (Ib Q). specialize (Ip Q).
+      constructor; unfold running; simpl; rewrite ?Q', ?R; intros; lia.
+    + pose proof Q as Q'. apply Z.ltb_ge in Q. constructor; unfold running; simpl; rewrite ?Q', ?R; intros; try lia; try (apply In; assumption).
+Qed.
+
+Lemma sem_inv0 limit : sem_inv limit sem0.
+Proof. constructor; unfold running, runl; simpl; intros; try reflexivity; try lia. destruct (0 <? limit); reflexivity. Qed.
+
+Lemma sem_run_inv limit es : sem_inv limit (sem_run limit es).
+Proof.
+  unfold sem_run. generalize sem0 (sem_inv0 limit). induction es as [|e es IH]; intros m I; simpl; [exact I|].
+  apply IH. apply sem_step_inv. exact I.
+Qed.
+
+(* for every schedule: never more than [limit] gathers at a time, every gather is matched by one done() *)
+Lemma inflight_bounded_lemma : forall limit es, 0 < limit ->
+  let m := sem_run limit es in
+  running m <= limit /\ m_peak m <= limit /\ m_count m = running m /\ m_gathers m = m_dones m + running m.
+Proof.
+  intros limit es L. destruct (sem_run_inv limit es) as [Ic Ib Ig Ip _ _]. simpl.
+  assert (Q : (0 <? limit) = true) by (apply Z.ltb_lt; exact L). rewrite Q in Ic. auto.
+Qed.
+
+(* a request arriving while [limit] gathers run is rejected and gathers nothing; otherwise it is let in *)
+Lemma excess_rejected_lemma : forall limit es t, 0 < limit ->
+  let m := sem_run limit es in
+  tlookup t (m_threads m) = None ->
+  let m' := sem_step limit m (Start t) in
+  (running m = limit -> m_503 m' = m_503 m + 1 /\ m_gathers m' = m_gathers m /\ m_dones m' = m_dones m /\
+                        tlookup t (m_threads m') = Some TRejected) /\
+  (running m < limit -> m_503 m' = m_503 m /\ m_gathers m' = m_gathers m + 1 /\ tlookup t (m_threads m') = Some TRunning).
+Proof.
+  intros limit es t L. simpl. intros T. destruct (sem_run_inv limit es) as [Ic _ _ _ _ _].
+  assert (Q : (0 <? limit) = true) by (apply Z.ltb_lt; exact L). rewrite Q in Ic.
+  rewrite T. unfold sem_admits. rewrite Q, Ic. simpl. split; intros R.
+  - assert (B : (limit <=? running (sem_run limit es)) = true) by (apply Z.leb_le; lia). rewrite B. simpl.
+    rewrite Z.eqb_refl. repeat split; reflexivity.
+  - assert (B : (limit <=? running (sem_run limit es)) = false) by (apply Z.leb_gt; lia). rewrite B. simpl.
+    rewrite Z.eqb_refl. repeat split; reflexivity.
+Qed.
+
+Lemma no_limit_never_rejects_lemma : forall limit es, limit <= 0 -> m_503 (sem_run limit es) = 0.
+Proof. intros limit es L. destruct (sem_run_inv limit es) as [_ _ _ _ _ In]. apply In. exact L. Qed.
+
+(* when every request has left the handler, done() was called exactly once per gather *)
+Lemma quiescent_done_lemma : forall limit es, running (sem_run limit es) = 0 ->
+  m_dones (sem_run limit es) = m_gathers (sem_run limit es) /\ m_count (sem_run limit es) = 0.
+Proof.
+  intros limit es R. destruct (sem_run_inv limit es) as [Ic _ Ig _ _ _]. rewrite R in *. split; [lia|].
+  destruct (0 <? limit); exact Ic.
+Qed.
+
+(* ------------------------------------------------------------------ top-level statements *)
+Lemma parse_then_negotiate_lemma : forall (vals offers : list str),
+  let c := negotiate_ce (parse_accept vals) offers in
+  c = [] \/ c = s_identity \/ (In c offers /\ accepted_nonzero (parse_accept vals) c = true).
+Proof.
+  intros vals offers. apply negotiate_ce_sound. intros a Ha. exact (parse_accept_nonneg_lemma vals a Ha).
+Qed.
+
+(* a coding whose effective entries (explicit, else wildcard) are all q=0 is never selected *)
+Lemma refused_never_selected_lemma : forall (vals offers : list str) c,
+  c <> s_identity -> c <> [] -> accepted_nonzero (parse_accept vals) c = false ->
+  negotiate_ce (parse_accept vals) offers <> c.
+Proof.
+  intros vals offers c N1 N2 R E. destruct (parse_then_negotiate_lemma vals offers) as [H | [H | [_ H]]];
+    rewrite E in H; [exact (N2 H) | exact (N1 H) | rewrite R in H; discriminate H].
+Qed.
+
+(* ------------------------------------------------------------------ examples: the hypotheses are satisfiable *)
+From Coq Require Import Strings.String.
+Definition ex_hdr (s : String.string) : list str := [of_string s].
+Arguments ex_hdr s%string.
+
+Example ex_explicit_refusal_beats_wildcard :
+  negotiate_ce (parse_accept (ex_hdr "gzip;q=0, *;q=0.5")) [s_gzip] = [] /\
+  negotiate_ce (parse_accept (ex_hdr "gzip;q=0, *;q=0.5")) [s_gzip; s_zstd] = s_zstd /\
+  negotiate_ce (parse_accept (ex_hdr "*;q=0.5, gzip;q=0")) [s_identity; s_gzip; s_zstd] = s_identity /\
+  negotiate_ce (parse_accept (ex_hdr "gzip;q=0.5, zstd;q=0.5")) [s_identity; s_gzip; s_zstd] = s_gzip /\
+  negotiate_ce (parse_accept (ex_hdr "*;q=0")) [s_identity; s_gzip] = [].
+Proof. vm_compute. repeat split; reflexivity. Qed.
+
+Definition ex_in (p : policy) (ae : String.string) (gerr : bool) (mfs : list (Z * bool)) : hin (Z * bool) :=
+  mkIn p false [] (ex_hdr ae) ZOk (of_string "text/plain"%string) mfs gerr (@snd Z bool) false 2 0.
+
+Arguments ex_in p ae%string gerr mfs.
+
+Example ex_policy_rows :
+  o_status (handle (ex_in PHttpError "gzip" true [(0, false)])) = 500 /\
+  o_cenc (handle (ex_in PHttpError "gzip" true [(0, false)])) = None /\
+  o_status (handle (ex_in PContinue "gzip" true [(0, false)])) = 200 /\
+  o_cenc (handle (ex_in PContinue "gzip" true [(0, false)])) = Some s_gzip /\
+  o_encoded (handle (ex_in PContinue "zstd" false [(0, false); (1, true); (2, false)])) = [(0, false); (2, false)] /\
+  o_encoding (handle (ex_in PContinue "zstd" false [(0, false); (1, true); (2, false)])) = 1 /\
+  o_panic (handle (ex_in PPanic "" true [])) = true /\
+  o_status (handle (mkIn PHttpError false [] [] ZOk [] [(0, false)] false (@snd Z bool) false 2 2)) = 503.
+Proof. vm_compute. repeat split; reflexivity. Qed.
+
+Example ex_schedule :
+  let m := sem_run 2 [Start 1; Start 2; Start 3; End 1 false; Start 4; End 2 true; End 4 false] in
+  sem_outcomes 2 sem0 [Start 1; Start 2; Start 3; End 1 false; Start 4; End 2 true; End 4 false] = [1; 1; 2; 0; 1; 0; 0] /\
+  m_peak m = 2 /\ m_503 m = 1 /\ m_gathers m = 3 /\ m_dones m = 3 /\ running m = 0.
+Proof. vm_compute. repeat split; reflexivity. Qed.
